@@ -40,6 +40,12 @@ AllIdents(S) ==
 KeywordIdent(S) == (AllIdents(S) \cap RustKeywordsNotReservedByWgsl) # {}
 NameClash(S) == (({ S.structs[i].name : i \in DOMAIN S.structs } \cup { S.consts[i].name : i \in DOMAIN S.consts }) \cap FixedItemNames) # {}
 
+(* the vertex entry helper names one step-mode parameter per struct parameter after the snake-case form of the struct name *)
+DuplicateParam(S) ==
+  \E i \in DOMAIN S.entries : S.entries[i].stage = "vertex" /\
+     \E a, b \in DOMAIN S.entries[i].params : a # b /\ S.entries[i].params[a].k = "struct" /\ S.entries[i].params[b].k = "struct"
+        /\ Has(StructDef(S, S.entries[i].params[a].ty), "snake")
+        /\ StructDef(S, S.entries[i].params[a].ty).snake = StructDef(S, S.entries[i].params[b].ty).snake
 PredictedCauses(S, o) ==
   (IF SerdeBigArray(S, o) THEN {"SerdeBigArray"} ELSE {})
   \cup (IF NonPodField(S, o) THEN {"NonPodField"} ELSE {})
@@ -47,4 +53,5 @@ PredictedCauses(S, o) ==
   \cup (IF ImplWithoutType(S) THEN {"ImplWithoutType"} ELSE {})
   \cup (IF KeywordIdent(S) THEN {"KeywordIdent"} ELSE {})
   \cup (IF NameClash(S) THEN {"NameClash"} ELSE {})
+  \cup (IF DuplicateParam(S) THEN {"DuplicateParam"} ELSE {})
 =============================================================================
